@@ -179,18 +179,22 @@ def brRun (total : Nat) : List BrOp → List Bool → List String → String
     | none => "PANIC"
     | some (o, bits') => brRun total ops bits' (o :: acc)
 
-/-- `LevelEncoder` script: `b<levels>` = put_with_observer(buffer), `n<value>:<count>` = put_n_with_observer -/
-def parseLvlOps (s : String) : Option (List Nat) :=
-  if s = "-" then some [] else
-  (s.splitOn ";").foldlM (fun acc t =>
+/-- `LevelEncoder` script: `b<levels>` = put_with_observer(buffer), `n<value>:<count>` =
+put_n_with_observer, `F` = flush_to (ends a page, the encoder is reused); pages in order -/
+def parseLvlOps (s : String) : Option (List (List Nat)) :=
+  if s = "-" then some [[]] else
+  ((s.splitOn ";").foldlM (fun (acc : List (List Nat) × List Nat) t =>
     let k := (t.take 1).toString
     let body := (t.drop 1).toString
-    if k = "b" then (parseList (fun x => x.toNat?) (body.replace "." ",")).map (acc ++ ·)
+    if k = "F" then some (acc.1 ++ [acc.2], [])
+    else if k = "b" then
+      if body = "" then some acc
+      else (parseList (fun x => x.toNat?) (body.replace "." ",")).map (fun l => (acc.1, acc.2 ++ l))
     else if k = "n" then
       match body.splitOn ":" with
-      | [v, c] => do pure (acc ++ List.replicate (← c.toNat?) (← v.toNat?))
+      | [v, c] => do pure (acc.1, acc.2 ++ List.replicate (← c.toNat?) (← v.toNat?))
       | _ => none
-    else none) []
+    else none) ([], [])).map (fun acc => acc.1 ++ [acc.2])
 
 def handle (toks : List String) : String :=
   match toks with
@@ -270,9 +274,10 @@ def handle (toks : List String) : String :=
     | _, _ => "bad-op"
   | ["lvl", ver, maxLevel, script] =>
     match maxLevel.toNat?, parseLvlOps script with
-    | some ml, some levels =>
-      let body := rleEncode (numRequiredBits ml) levels
-      if ver = "v1" then toHex (leBytes 4 body.length ++ body) else toHex body
+    | some ml, some pages =>
+      "/".intercalate (pages.map (fun levels =>
+        let body := rleEncode (numRequiredBits ml) levels
+        if ver = "v1" then toHex (leBytes 4 body.length ++ body) else toHex body))
     | _, _ => "bad-op"
   -- round trip through a compression codec: the expected output is the input
   | ["codec", _name, h] => h
